@@ -13,9 +13,10 @@ import lib
 import walkh
 
 FILE_POOL = ["x.cmake", "y.cmake", "Z.CMAKE", "w.CMake", "n.txt", "cmake", "d.e-f.cmake", "README", "v1.2.cmake", "k.cmake.in"]
-DIR_POOL = ["a", "b", "c", "sub", "x.d"]
+DIR_POOL = ["a", "b", "c", "sub", "x.d", "out-old", "outer"]
 PATTERNS = [("a", "a", False), ("b/", "b", True), ("*.CMAKE", "*.CMAKE", False), ("**/c", "c", False), ("y.cmake", "y.cmake", False),
-            ("x.cmake", "x.cmake", False), ("*.cmake", "*.cmake", False), ("sub/", "sub", True), ("n.txt", "n.txt", False), ("x.d", "x.d", False)]
+            ("x.cmake", "x.cmake", False), ("*.cmake", "*.cmake", False), ("sub/", "sub", True), ("n.txt", "n.txt", False), ("x.d", "x.d", False),
+            ("y.cmake/", "y.cmake", True), ("*.cmake/", "*.cmake", True), ("o*/", "o*", True)]
 
 
 def gen_tree(rng, depth=0, path=()):
@@ -207,6 +208,8 @@ def run(run, pid, seed, n):
         run.traces += 1
         run.count("walktrace:" + tr["id"])
         v = e[pid]
+        if pid == "C14" and not e["closed"]:
+            v = "viol"       # closure of the toctrees is demanded of every run
         st[v] += 1
         if e["rejs"] or not e["stack_empty"]:
             st["rejected_events"] += max(1, e["rejs"])
